@@ -18,14 +18,16 @@ class ParentInfo(NamedTuple):
 class Tree:
     def __init__(self, root: ASTNode) -> None:
         self._root = root
-        self._node_to_parent_info: dict[ASTNode, ParentInfo] = {}
-        self._node_to_xpath: dict[ASTNode, str] = {root: f"/@root[0]{root.__class__.__name__}"}
+        # Keyed by object identity: nodes compare (and hash) by content / id, and a tree may
+        # hold distinct nodes that are equal to each other or to nodes outside of it
+        self._node_to_parent_info: dict[int, ParentInfo] = {}
+        self._node_to_xpath: dict[int, str] = {id(root): f"/@root[0]{root.__class__.__name__}"}
 
         for n in root.dfs():
-            self._node_to_parent_info[n.node] = ParentInfo(n.parent, n.field, n.findex)
+            self._node_to_parent_info[id(n.node)] = ParentInfo(n.parent, n.field, n.findex)
             self._node_to_xpath[
-                n.node
-            ] = f"{self._node_to_xpath[n.parent]}/@{n.field.name}[{n.findex or '0'}]{n.node.__class__.__name__}"
+                id(n.node)
+            ] = f"{self._node_to_xpath[id(n.parent)]}/@{n.field.name}[{n.findex or '0'}]{n.node.__class__.__name__}"
 
     @property
     def root(self) -> ASTNode:
@@ -43,7 +45,7 @@ class Tree:
         Returns:
             str: The XPath of the node.
         """
-        return self._node_to_xpath[node]
+        return self._node_to_xpath[id(node)]
 
     def get_parent(self, node: ASTNode) -> ASTNode | None:
         """Get the parent of the `node`.
@@ -60,7 +62,7 @@ class Tree:
         if node is self._root:
             return None
 
-        return self._node_to_parent_info[node].parent
+        return self._node_to_parent_info[id(node)].parent
 
     def get_parent_info(self, node: ASTNode) -> tuple[ASTNode | None, Field | None, int | None]:
         """Get a tuple if parent, parent field & index in the parent field.
@@ -77,7 +79,7 @@ class Tree:
         if node is self._root:
             return None, None, None
 
-        return self._node_to_parent_info[node]
+        return self._node_to_parent_info[id(node)]
 
     def is_root(self, node: ASTNode) -> bool:
         """Return True if the node is the root of the tree."""
@@ -85,7 +87,7 @@ class Tree:
 
     def is_in_tree(self, node: ASTNode) -> bool:
         """Return True if the node is in the tree."""
-        return node in self._node_to_xpath
+        return id(node) in self._node_to_xpath
 
     def get_depth(
         self, node: ASTNode, relative_to: ASTNode | None = None, check_ancestor: bool = True
